@@ -36,6 +36,8 @@ var c09Base = map[string]string{
 	"node_modules/pkg/alt.js":       "module.exports = 'pkg-alt';\n",
 	"node_modules/pkg/esm.js":       "export default 'pkg-esm';\n",
 	"alt/a.js":                      "export const a = 'alt-a';\n",
+	"src/emptylib/":                 "",
+	"src/node_modules/":             "",
 }
 
 type c09Edit struct {
@@ -98,6 +100,9 @@ var c09Edits = []c09Edit{
 	}},
 	{"klass-edit", toggle("src/klass.ts", "export class K { x; y = 1 }\n", "export class K { x; y = 2; z }\n")},
 	{"add-react-shim", toggleFile("node_modules/react/jsx-runtime.js", "exports.jsx = exports.jsxs = function(){}; exports.Fragment = 0;\n")},
+	{"import-from-empty-dir", toggle("src/second.ts", "import {a} from './a';\nimport {a as unusedA} from './a';\nimport {E} from './enum';\nimport {D} from './deco';\nexport const second = [a, E.Y, D];\n", "import {a} from './a';\nimport {a as unusedA} from './a';\nimport {E} from './enum';\nimport {D} from './deco';\nexport const second = [a, E.Y, D];\nimport './emptylib/foo';\n")},
+	{"create-foo-in-empty-dir", toggleFile("src/emptylib/foo.js", "console.log('foo');\n")},
+	{"nearer-node-modules-file", toggleFile("src/node_modules/pkg.js", "module.exports = 'nearer-pkg-file';\n")},
 	// ---- group B: every other tsconfig.json setting esbuild reads (explored with the cjs/iife configurations, see c09GroupB)
 	{"tsconfig-always-strict", toggle("tsconfig.json", `{"extends":"./tsconfig.base.json","compilerOptions":{"jsx":"react"}}`, `{"extends":"./tsconfig.base.json","compilerOptions":{"jsx":"react","alwaysStrict":true}}`)},
 	{"tsconfig-strict", toggle("tsconfig.json", `{"extends":"./tsconfig.base.json","compilerOptions":{"jsx":"react"}}`, `{"extends":"./tsconfig.base.json","compilerOptions":{"jsx":"react","strict":true}}`)},
@@ -110,7 +115,7 @@ var c09Edits = []c09Edit{
 }
 
 // c09GroupA: number of edits of the main search; the edits after it form group B together with the named ones
-const c09GroupA = 23
+const c09GroupA = 26
 
 var c09GroupBExtra = []string{"base-use-define", "delete-tsconfig", "klass-edit"}
 
@@ -136,6 +141,11 @@ func syncTree(dir string, old, files map[string]string, clock *int64, regime str
 			// remove now-empty directories
 			d := filepath.Dir(filepath.Join(dir, k))
 			for d != dir {
+				if rel, err := filepath.Rel(dir, d); err == nil {
+					if _, keep := files[filepath.ToSlash(rel)+"/"]; keep {
+						break // this directory is part of the tree in its own right (possibly empty)
+					}
+				}
 				if err := os.Remove(d); err != nil {
 					break
 				}
@@ -153,6 +163,10 @@ func syncTree(dir string, old, files map[string]string, clock *int64, regime str
 			continue
 		}
 		p := filepath.Join(dir, k)
+		if strings.HasSuffix(k, "/") {
+			os.MkdirAll(p, 0o755) // a key ending in "/" is a directory that exists even when it is empty
+			continue
+		}
 		if st, err := os.Stat(p); err == nil && st.IsDir() {
 			os.RemoveAll(p)
 		}
@@ -239,7 +253,7 @@ func c09ResultKey(dir string, r api.BuildResult) string {
 }
 
 func runC09(c *Check) {
-	c.Rule = "explicit-state search over edit histories of a 16-file project (two entry points, a.js/a.ts shadow pair, JSX, CSS, JSON, const enum, class fields, node_modules package, tsconfig with extends): 31 mostly involutive edits (same-length and different-length content edits, syntax error/repair, create/delete/shadow modules, package.json main/type/sideEffects/exports, nearer node_modules, tsconfig jsx/jsxFactory/jsxImportSource/paths/target/useDefineForClassFields(base)/delete and, as a second search with cjs/iife configurations, alwaysStrict/strict/experimentalDecorators/verbatimModuleSyntax/preserveValueImports/importsNotUsedAsValues/jsxFragmentFactory/alwaysStrict(base), enum/css/json edits, file<->directory); every history of length<=3 (thorough 4) with a Rebuild() after every edit x 4 configurations x 2 mtime regimes; oracle: Rebuild() == fresh api.Build of the same tree, and the watch predicates of the previous build report a dirty path whenever the fresh result changed; states = distinct (tree, configuration) pairs reached, transitions = rebuilds"
+	c.Rule = "explicit-state search over edit histories of a 16-file project (two entry points, a.js/a.ts shadow pair, JSX, CSS, JSON, const enum, class fields, node_modules package, tsconfig with extends): 34 mostly involutive edits (same-length and different-length content edits, syntax error/repair, create/delete/shadow modules, package.json main/type/sideEffects/exports, nearer node_modules, tsconfig jsx/jsxFactory/jsxImportSource/paths/target/useDefineForClassFields(base)/delete and, as a second search with cjs/iife configurations, alwaysStrict/strict/experimentalDecorators/verbatimModuleSyntax/preserveValueImports/importsNotUsedAsValues/jsxFragmentFactory/alwaysStrict(base), enum/css/json edits, file<->directory, lookups in directories that exist but are empty); every history of length<=3 (thorough 4) with a Rebuild() after every edit x 4 configurations x 2 mtime regimes; oracle: Rebuild() == fresh api.Build of the same tree, and the watch predicates of the previous build report a dirty path whenever the fresh result changed; states = distinct (tree, configuration) pairs reached, transitions = rebuilds"
 	c.Assump = []string{"edits are applied while no build is running", "mtime regime 'past' sets strictly increasing mtimes far in the past (usable mod keys), regime 'now' uses the real clock (mod keys inside the safety gap)"}
 	maxLen := 3
 	if c.Tier != "quick" {
